@@ -112,6 +112,11 @@ static int compare_strings(const unsigned char *string1, const unsigned char *st
 static cJSON_bool compare_double(double a, double b)
 {
     double maxVal = fabs(a) > fabs(b) ? fabs(a) : fabs(b);
+    if (maxVal > DBL_MAX)
+    {
+        /* the relative tolerance would be infinite as well: an infinity only equals itself */
+        return (a == b);
+    }
     return (fabs(a - b) <= maxVal * DBL_EPSILON);
 }
 
